@@ -75,19 +75,7 @@ impl Sim {
         let mut out = Vec::new();
         let mut evs = Vec::new();
         while let Ok(ev) = self.ev_rx.try_recv() {
-            match &ev {
-                PoolEvent::ParentReady { slot, parent } => out.push(format!("pr {} {} {}", slot.inner(), parent.0.inner(), keys.hash_id[&parent.1])),
-                PoolEvent::SafeToNotar((s, h)) => out.push(format!("s2n {} {}", s.inner(), keys.hash_id[h])),
-                PoolEvent::SafeToSkip(s) => out.push(format!("s2s {}", s.inner())),
-                PoolEvent::CertCreated(c) => out.push(fmt_cert(keys, c)),
-                PoolEvent::Standstill(s, certs, votes) => {
-                    let mut cs: Vec<String> = certs.iter().map(|c| fmt_cert(keys, c)).collect();
-                    cs.sort();
-                    let mut vs: Vec<String> = votes.iter().map(|v| fmt_vote(keys, v)).collect();
-                    vs.sort();
-                    out.push(format!("standstill {} [{}] [{}]", s.inner(), cs.join(" / "), vs.join(" / ")));
-                }
-            }
+            out.push(fmt_event(keys, &ev));
             evs.push(ev);
         }
         let mut reps = Vec::new();
@@ -110,6 +98,35 @@ struct Run<'a> {
     dead: bool,
     /// set when the history left the protocol's safety envelope (possible only with >= 20% Byzantine stake)
     safety_panic: bool,
+    /// when set: the calls of the case (for the replay under back-pressure) ...
+    log: Option<Vec<LoggedOp>>,
+    /// ... and the Votor events they produced, in channel order
+    evlog: Vec<String>,
+}
+
+/// one call into the pool, as it was made on the `Sim`
+#[derive(Clone)]
+enum LoggedOp {
+    Vote(ValidatedVote),
+    Cert(ValidatedCert),
+    Block(BlockId, BlockId),
+    Recover,
+}
+
+fn fmt_event(keys: &Keys, ev: &PoolEvent) -> String {
+    match ev {
+        PoolEvent::ParentReady { slot, parent } => format!("pr {} {} {}", slot.inner(), parent.0.inner(), keys.hash_id[&parent.1]),
+        PoolEvent::SafeToNotar((s, h)) => format!("s2n {} {}", s.inner(), keys.hash_id[h]),
+        PoolEvent::SafeToSkip(s) => format!("s2s {}", s.inner()),
+        PoolEvent::CertCreated(c) => fmt_cert(keys, c),
+        PoolEvent::Standstill(s, certs, votes) => {
+            let mut cs: Vec<String> = certs.iter().map(|c| fmt_cert(keys, c)).collect();
+            cs.sort();
+            let mut vs: Vec<String> = votes.iter().map(|v| fmt_vote(keys, v)).collect();
+            vs.sort();
+            format!("standstill {} [{}] [{}]", s.inner(), cs.join(" / "), vs.join(" / "))
+        }
+    }
 }
 
 impl Run<'_> {
@@ -163,6 +180,7 @@ impl Run<'_> {
             return;
         }
         let (evs, raw) = sim.drain(keys);
+        self.evlog.extend(evs[..raw.len()].iter().cloned());
         let out = format!("{} | {}", verdict, evs.join(" ; "));
         self.rec.step(op, &out);
         self.rec.count(&format!("verdict:{}", verdict.split(' ').next().unwrap_or("")));
@@ -334,6 +352,7 @@ impl Run<'_> {
         let fu = sim.pool.verif_first_unpruned_slot().inner();
         let fin = sim.pool.finalized_slot().inner();
         let expected = Self::expected_verdicts(sim, k, slot, h, signer, fu, fin);
+        if let Some(log) = &mut self.log { log.push(LoggedOp::Vote(vv.clone())); }
         let res = catch(|| self.rt.block_on(sim.pool.add_vote(vv)));
         let verdict = match &res {
             Ok(Ok(())) => "ok".to_string(),
@@ -374,6 +393,7 @@ impl Run<'_> {
         let c = build_cert(keys, ck, slot, h, a, b, sim.epoch.epoch_info().validators());
         let op = format!("cert {} {} {} {} {} {}", ck.name(), slot, h, fmt_list(a), fmt_list(b), c.stake().inner());
         let vc = match ValidatedCert::try_new(c, sim.epoch.epoch_info()) { Ok(v) => v, Err(_) => return };
+        if let Some(log) = &mut self.log { log.push(LoggedOp::Cert(vc.clone())); }
         let res = catch(|| self.rt.block_on(sim.pool.add_cert(vc)));
         let verdict = match &res {
             Ok(Ok(())) => "ok".to_string(),
@@ -391,6 +411,7 @@ impl Run<'_> {
         let op = format!("block {} {} {} {}", b.0, b.1, p.0, p.1);
         let bid = (Slot::new(b.0), keys.hashes[b.1].clone());
         let pid = (Slot::new(p.0), keys.hashes[p.1].clone());
+        if let Some(log) = &mut self.log { log.push(LoggedOp::Block(bid.clone(), pid.clone())); }
         let res = catch(|| self.rt.block_on(sim.pool.add_block(bid, pid)));
         let verdict = if res.is_ok() { "ok" } else { "panic" }.to_string();
         if res.is_ok() { sim.blocks.insert(b, p); }
@@ -401,6 +422,7 @@ impl Run<'_> {
     fn recover(&mut self, sim: &mut Sim) {
         if self.dead { return; }
         let keys = self.keys;
+        if let Some(log) = &mut self.log { log.push(LoggedOp::Recover); }
         let res = catch(|| self.rt.block_on(sim.pool.recover_from_standstill()));
         let verdict = if res.is_ok() { "ok" } else { "panic" }.to_string();
         self.rec.oracle(res.is_ok(), "recover-panic", || format!("recover_from_standstill panicked (finalized slot {}): {:?}", sim.pool.finalized_slot().inner(), res.as_ref().err()));
@@ -501,8 +523,73 @@ impl Run<'_> {
                 out.push(format!("standstill {} [{}] [{}]", s.inner(), cs.join(" / "), vs.join(" / ")));
             }
         }
+        self.evlog.extend(pending.iter().map(|ev| fmt_event(keys, ev)));
         self.rec.step("recover", &format!("{} | {}", verdict, out.join(" ; ")));
         self.rec.count("op:recover");
+    }
+
+    /// Replays the logged calls of the case on a fresh pool whose channel to Votor holds only `cap` events, concurrently
+    /// with a consumer that starts `start_lag` scheduler turns late and pauses `lag` turns after every event (one
+    /// current-thread runtime, `join!`, no timers: deterministic).  A full queue towards Votor is a state like any
+    /// other: every triggered recovery must still hand over its bundle ("whenever a node triggers standstill recovery
+    /// it hands over ...", "safe in every state"), and Votor must see exactly the events an unhindered consumer sees.
+    /// Oracle-only: nothing is written to the compared stream.
+    fn replay_backpressure(&mut self, sim: &Sim, cap: usize, start_lag: usize, lag: usize) {
+        let Some(log) = self.log.take() else { return };
+        let want = std::mem::take(&mut self.evlog);
+        if self.dead || self.safety_panic { return; }
+        let keys = self.keys;
+        let epoch = sim.epoch.clone();
+        let nrecover = log.iter().filter(|o| matches!(o, LoggedOp::Recover)).count();
+        let res = catch(|| self.rt.block_on(async {
+            let (ev_tx, mut ev_rx) = mpsc::channel(cap);
+            let (rep_tx, mut rep_rx) = mpsc::channel(1 << 14);
+            let probe = ev_tx.clone();
+            let mut pool = PoolImpl::new(epoch, ev_tx, rep_tx);
+            let feeder = async move {
+                // number of recoveries triggered while the queue towards Votor was full
+                let mut full = 0usize;
+                for op in log {
+                    match op {
+                        LoggedOp::Vote(v) => { let _ = pool.add_vote(v).await; }
+                        LoggedOp::Cert(c) => { let _ = pool.add_cert(c).await; }
+                        LoggedOp::Block(b, p) => pool.add_block(b, p).await,
+                        LoggedOp::Recover => {
+                            if probe.capacity() == 0 { full += 1; }
+                            pool.recover_from_standstill().await;
+                        }
+                    }
+                    while rep_rx.try_recv().is_ok() {}
+                }
+                drop(pool); // with `probe`: closes the channel, the consumer sees the end of the stream
+                drop(probe);
+                full
+            };
+            let consumer = async {
+                for _ in 0..start_lag { tokio::task::yield_now().await; }
+                let mut got: Vec<String> = Vec::new();
+                while let Some(ev) = ev_rx.recv().await {
+                    got.push(fmt_event(keys, &ev));
+                    for _ in 0..lag { tokio::task::yield_now().await; }
+                }
+                got
+            };
+            tokio::join!(feeder, consumer)
+        }));
+        let desc = format!("replay of the case with a Votor queue of capacity {cap}, consumer {start_lag} turns late, pausing {lag} turns per event");
+        self.rec.oracle(res.is_ok(), "pool-panic", || format!("{desc}: the pool panicked: {:?}", res.as_ref().err()));
+        let Ok((full, got)) = res else { return };
+        self.rec.count("backpressure:replays");
+        for _ in 0..full { self.rec.count("backpressure:recover-with-full-queue"); }
+        let st = |v: &[String]| v.iter().filter(|e| e.starts_with("standstill ")).cloned().collect::<Vec<_>>();
+        let (got_st, want_st) = (st(&got), st(&want));
+        let nst = got_st.len();
+        self.rec.oracle(nst == nrecover, "bundle-not-handed-over", || format!("{desc}: recovery was triggered {nrecover} time(s) ({full} of them with the queue full) but {nst} bundle(s) reached Votor; an unhindered consumer sees {:?}, this one received {:?}", want, got));
+        let first = (0..want_st.len().max(got_st.len())).find(|i| want_st.get(*i) != got_st.get(*i));
+        self.rec.oracle(first.is_none(), "bundle-differs-under-backpressure", || {
+            let i = first.unwrap_or(0);
+            format!("{desc}: bundle {i} reaching Votor is {:?}, an unhindered consumer sees {:?}", got_st.get(i), want_st.get(i))
+        });
     }
 }
 
@@ -561,7 +648,7 @@ fn main() {
     let keys = Keys::new(&mut krng);
     let focus = args.extra.iter().position(|a| a == "--focus").map(|i| args.extra[i + 1].clone()).unwrap_or_else(|| "C03".into());
     let rt = tokio::runtime::Builder::new_current_thread().build().expect("rt");
-    let mut run = Run { keys: &keys, rec: Recorder::new(), rt, class: 0, focus: focus.clone(), dead: false, safety_panic: false };
+    let mut run = Run { keys: &keys, rec: Recorder::new(), rt, class: 0, focus: focus.clone(), dead: false, safety_panic: false, log: None, evlog: Vec::new() };
     // corpus first: minimized past failures and directed scenarios
     let corpus = std::path::Path::new(env!("CARGO_MANIFEST_DIR")).join("../corpus/pool");
     if let Some(rp) = &args.replay {
@@ -599,7 +686,15 @@ fn main() {
         };
         run.rec.begin_case(&format!("{plan}/{shape}/n{n}"));
         run.rec.step(&format!("epoch {} {}", own, stakes.iter().map(|s| s.to_string()).collect::<Vec<_>>().join(" ")), &format!("epoch n={} total={}", n, sim.total));
+        // C18: every case is afterwards replayed against a tiny, lagging queue towards Votor
+        let bp = if focus == "C18" {
+            let mut brng = rng.fork();
+            run.log = Some(Vec::new());
+            run.evlog.clear();
+            Some((brng.range(1, 2) as usize, *brng.pick(&[0usize, 2, 40, 1000]), brng.range(1, 3) as usize))
+        } else { None };
         gen_case(&mut run, &mut sim, &mut rng, plan);
+        if let Some((cap, start_lag, lag)) = bp { run.replay_backpressure(&sim, cap, start_lag, lag); }
         let class = run.class;
         run.rec.end_case(class, true);
     }
